@@ -268,24 +268,24 @@ func (r *Report) Finish() int {
 		}
 	}
 	cov := map[string]interface{}{
-		"obligations":       total,
-		"discharged":        nHold,
-		"known_findings":    nKnown,
-		"violated":          nViol,
-		"undecided":         nUnd,
-		"checker_cmd":       strings.Join(os.Args, " "),
-		"trusted_base":      r.Trusted,
-		"explanation":       r.Explanation,
-		"samples":           samples,
-		"exhaustive":        true,
-		"rules":             r.Rules,
+		"obligations":         total,
+		"discharged":          nHold,
+		"known_findings":      nKnown,
+		"violated":            nViol,
+		"undecided":           nUnd,
+		"checker_cmd":         strings.Join(os.Args, " "),
+		"trusted_base":        r.Trusted,
+		"explanation":         r.Explanation,
+		"samples":             samples,
+		"exhaustive":          true,
+		"rules":               r.Rules,
 		"obligations_by_rule": byRule,
-		"discharged_by":     byHow,
-		"analysed":          r.Analysed,
-		"instance_floors":   r.Floors,
-		"evaluations":       total,
+		"discharged_by":       byHow,
+		"analysed":            r.Analysed,
+		"instance_floors":     r.Floors,
+		"evaluations":         total,
 		"distinct_nontrivial": total,
-		"rule":              "one obligation per rule instance and construct (see obligations_by_rule); distinct by key",
+		"rule":                "one obligation per rule instance and construct (see obligations_by_rule); distinct by key",
 	}
 	if len(r.Controls) > 0 {
 		fired, applied := 0, 0
